@@ -1,6 +1,7 @@
 ---------------------------- MODULE StopRulesRec ----------------------------
 (***************************************************************************)
-(* Records of real calls to sd_stop / rilling_stop / fixed_stop on data    *)
+(* Records of real calls to sd_stop / rilling_stop / fixed_stop /          *)
+(* energy_stop (and the energy_thresh exit of get_next_imf) on data        *)
 (* whose summary (counts, integer sums) is exact, against StopRulesDef.    *)
 (***************************************************************************)
 EXTENDS StopRulesDef, Sequences, TLC, Json, IOUtils
@@ -17,5 +18,6 @@ RecOK == ri > 0 =>
     /\ Ok(r.raised = 0, "stop_rule.call_completes")
     /\ r.rule = "rilling" => Ok((r.fired = 1) <=> RillingStops(r.N, r.n1, r.n2, r.tp, r.tq), "rilling.stops_iff_fraction_within_tol_and_none_large")
     /\ r.rule = "sd" => Ok((r.fired = 1) <=> SdStops(r.num, r.den, r.tp, r.tq), "sd.stops_iff_ratio_below_threshold")
+    /\ r.rule = "energy" => Ok((r.fired = 1) <=> EnergyStops(r.A, r.B, r.K), "energy.stops_iff_ratio_exceeds_threshold")
     /\ r.rule = "fixed" => Ok((r.fired = 1) <=> FixedStops(r.niters, r.maxit), "fixed.stops_iff_count_reached")
 =============================================================================
